@@ -2669,6 +2669,7 @@ impl Compiler {
             is_generator: false,
             is_async,
             is_arrow: true,
+            is_class_constructor: false,
             uses_arguments: false,
             uses_this: false,
             param_names,
